@@ -324,6 +324,8 @@ impl<L: LSPLang> Backend<L> {
         .get_diagnostics(&text_doc.uri, &versioned)
         .unwrap_or_default()
     };
+    #[cfg(feature = "verif-hooks")]
+    ast_grep_core::verif::yield_point("lsp.change.before_publish").await;
     self
       .client
       .log_message(MessageType::LOG, "Publishing diagnostics.")
